@@ -232,10 +232,21 @@ func runC19(w *World, r *Report, tier string) {
 	for _, p := range w.Pkgs {
 		rel := relPkg(p.Types)
 		var badImp []string
-		for ip := range p.Imports {
-			switch ip {
-			case "sync", "sync/atomic", "unsafe", "runtime/cgo", "C", "reflect":
-				badImp = append(badImp, ip)
+		// imports of the package's own files (the canary overlay file is not part of the tree)
+		seenImp := map[string]bool{}
+		for i, file := range p.Syntax {
+			if i < len(p.CompiledGoFiles) && strings.HasSuffix(p.CompiledGoFiles[i], "zz_verif_canary.go") {
+				continue
+			}
+			for _, im := range file.Imports {
+				ip := strings.Trim(im.Path.Value, "\"")
+				switch ip {
+				case "sync", "sync/atomic", "unsafe", "runtime/cgo", "C", "reflect":
+					if !seenImp[ip] {
+						seenImp[ip] = true
+						badImp = append(badImp, ip)
+					}
+				}
 			}
 		}
 		sort.Strings(badImp)
